@@ -22,6 +22,10 @@ import z3
 from decimal import Decimal as _Decimal
 
 
+import os as _os
+Z3_TIMEOUT_MS = int(_os.environ.get('VERIF_Z3_TIMEOUT_MS', '20000'))      # per-query limit; an expired query is 'unknown' -> inconclusive
+
+
 class PathAbort(BaseException):
     """infeasible assumption / precondition not met: the path is discarded"""
 
@@ -37,7 +41,7 @@ class NonDeterministic(Exception):
 class Engine:
     def __init__(self, timeout=60.0, max_paths=200000):
         self.solver = z3.Solver()
-        self.solver.set('timeout', 20000)
+        self.solver.set('timeout', Z3_TIMEOUT_MS)
         self.timeout = timeout
         self.max_paths = max_paths
         self.t0 = time.time()
@@ -161,7 +165,7 @@ class Engine:
             self.trail.append(('q', res))
             return res
         finally:
-            self.solver.set('timeout', 20000)
+            self.solver.set('timeout', Z3_TIMEOUT_MS)
 
     def concretize(self, term):
         """pick a concrete value for an int term, forking over the alternatives.  The chosen value is part of the decision trail:
@@ -752,6 +756,14 @@ def assume(cond):
         raise PathAbort()
 
 
+def give_up(reason=''):
+    """the harness met something the models cannot represent on this path (not a property violation): the run ends inconclusive"""
+    e = eng()
+    e.inconclusive = True
+    e.unknowns += 1
+    raise PathAbort()
+
+
 def is_sym(x):
     return isinstance(x, (SymInt, SymBool))
 
@@ -803,7 +815,7 @@ def explore(fn, timeout=60.0, max_paths=200000, bounds=None):
         while worklist:
             prefix = worklist.pop()
             e.solver.reset()
-            e.solver.set('timeout', 20000)
+            e.solver.set('timeout', Z3_TIMEOUT_MS)
             e.prefix, e.trail, e.pending = prefix, [], []
             e.nvars = 0
             e.inputs = []
